@@ -1,5 +1,6 @@
 import TypstyleModel.Proofs.CarriesLists
 import TypstyleModel.Proofs.CarriesMarkup
+import TypstyleModel.Proofs.CarriesCall
 /-! The knot (route M): **for every tree of the covered fragment, the printed family carries exactly
 what the tree prescribes** — code tokens, comments, prose, literals and verbatim text — with no
 per-case certificate: by induction over the fuel of the knot, using the per-construct theorems.
@@ -93,6 +94,20 @@ def listChildrenOK (k : Kind) (cs : List ANode) : Bool :=
   | .strong => cs.map (·.kind) == [.star, .markup, .star]
   | .emph => cs.map (·.kind) == [.underscore, .markup, .underscore]
   | .markup => cs.all fun x => x.kind == .space || x.kind == .parbreak || x.kind == .text || isExpr x || isCommentKind x.kind || x.kind.isPlainToken
+  | .args =>
+      -- code mode: `( items )` then trailing content blocks, or content blocks only
+      if (cs.head?.map (·.kind == .leftParen)).getD false then
+        (cs.takeWhile (·.kind != .rightParen)).all (fun x => isArg x || isPassable x) &&
+        (match cs.dropWhile (·.kind != .rightParen) with
+          | _ :: blocks => blocks.all isBlockShape
+          | [] => false)
+      else cs.all isBlockShape
+  | .funcCall =>
+      -- callee and arguments; dot chains (callee a field access) and `table`/`grid` are laid out by other code
+      (match cs with
+        | [callee, args] => isExpr callee && !(callee.kind == .fieldAccess) && args.kind == .args &&
+            !(callee.kind == .ident && (callee.text == "table" || callee.text == "grid"))
+        | _ => false)
   | _ => false
 
 mutual
@@ -101,7 +116,7 @@ def inFrag : ANode → Bool
   | .leaf k t a => ANode.tokensAreLeaves (.leaf k t a) && (!k.isExpr || k.isFragLeaf || (k == .parbreak && !a.disabled)) && !k.isInnerKind
   | .inner k cs _ =>
     (k.isFragFlow || k.isFragElem || (k.isFragList && listChildrenOK k cs) || k == .code ||
-      ((k.isFragWrap || k == .markup) && listChildrenOK k cs) || k.isFragItem) && inFragL cs
+      ((k.isFragWrap || k == .markup || k == .args || k == .funcCall) && listChildrenOK k cs) || k.isFragItem || k == .setRule) && inFragL cs
 def inFragL : List ANode → Bool
   | [] => true
   | c :: cs => inFrag c && inFragL cs
@@ -109,7 +124,7 @@ end
 
 theorem fragKind_inner (k : Kind) (cs : List ANode)
     (h : (k.isFragFlow || k.isFragElem || (k.isFragList && listChildrenOK k cs) || k == .code ||
-      ((k.isFragWrap || k == .markup) && listChildrenOK k cs) || k.isFragItem) = true) : k.isInnerKind = true := by
+      ((k.isFragWrap || k == .markup || k == .args || k == .funcCall) && listChildrenOK k cs) || k.isFragItem || k == .setRule) = true) : k.isInnerKind = true := by
   cases k <;> simp_all [Kind.isFragFlow, Kind.isFragElem, Kind.isFragList, Kind.isFragWrap, Kind.isFragItem, Kind.isInnerKind]
 
 mutual
@@ -146,7 +161,7 @@ abbrev Q : ANode → Prop := fun c => inFrag c = true
 
 /-! ### elements: named, keyed, spread -/
 
-theorem elem_carries {σ : Type} (e : Env) (r : Rec) (ctx : Ctx) (x : ANode) (hq : inFrag x = true) (hk : x.kind.isFragElem = true)
+theorem elem_carries {σ : Type} (e : Env) (r : Rec) (ctx : Ctx) (hctx : NM ctx) (x : ANode) (hq : inFrag x = true) (hk : x.kind.isFragElem = true)
     (st : σ) (producer : σ → Ctx → ANode → M (σ × Option FlowItem)) (hp : ProducerS producer specAll (ChildOK Q)) :
     Post (flowM e ctx x.children st producer) (fun d => Carries d (specAll x)) := by
   cases x with
@@ -161,18 +176,18 @@ theorem elem_carries {σ : Type} (e : Env) (r : Rec) (ctx : Ctx) (x : ANode) (hq
     have hv : isVerbatimNode k cs a = false := by cases k <;> simp_all [Kind.isFragElem, isVerbatimNode, Kind.isExpr]
     have hraw : k ≠ .raw := by intro h; rw [h] at hk; cases hk
     exact flow_construct_carries e ctx k cs a st producer hp hv hraw (inFragL_lex cs hq.2)
-      (fun c hc => inFragL_mem hq.2 hc)
+      (fun c hc => inFragL_mem hq.2 hc) hctx
 
 /-! ### list-like constructs -/
 
 /-- The contract of an item checker that accepts `acc x` children through `conv` and passes over the rest. -/
 theorem checker_ok (checker : Ctx → ANode → M (Option Doc)) (acc : ANode → Bool)
-    (hacc : ∀ c x, inFrag x = true → acc x = true → Post (checker c x) (fun r => ∃ body, r = some body ∧ Carries body (specAll x)))
+    (hacc : ∀ c x, NM c → inFrag x = true → acc x = true → Post (checker c x) (fun r => ∃ body, r = some body ∧ Carries body (specAll x)))
     (hrej : ∀ c x, acc x = false → checker c x = pure none) :
     CheckerS checker specAll (fun x => inFrag x = true ∧ (acc x = true ∨ isPassable x = true)) := by
-  intro c x hok
+  intro c x hnm hok
   by_cases ha : acc x = true
-  · exact Post.mono (hacc c x hok.1 ha) (fun r ⟨body, hr, hb⟩ => by rw [hr]; exact hb)
+  · exact Post.mono (hacc c x hnm hok.1 ha) (fun r ⟨body, hr, hb⟩ => by rw [hr]; exact hb)
   · have ha' : acc x = false := by simpa using ha
     rw [hrej c x ha']
     refine Post.pure ?_
@@ -191,6 +206,123 @@ theorem no_hash_of (acc : ANode → Bool) (hacc : ∀ x, acc x = true → x.kind
   · intro hk
     unfold isPassable isIgnorable isCommentKind at h
     rw [hk] at h; simp [Kind.fixedText] at h
+
+/-- An argument: named, spread, or an expression. -/
+theorem convArg_frag (e : Env) (r : Rec) (hr : RecOK r Q) (c : Ctx) (hnm : NM c) (x : ANode) (hqx : inFrag x = true)
+    (hax : isArg x = true) : Post (convArg e r c x) (fun d => Carries d (specAll x)) := by
+  unfold convArg
+  unfold isArg at hax
+  simp only [Bool.or_eq_true, beq_iff_eq] at hax
+  rcases hax with (h | h) | h
+  · rw [h]; exact elem_carries e r c hnm x hqx (by rw [h]; rfl) false _ (namedProducer_ok e r hr)
+  · rw [h]; exact elem_carries e r c hnm x hqx (by rw [h]; rfl) () _ (spreadProducer_ok e r hr)
+  · have h1 : x.kind ≠ .named := by intro hk; unfold isExpr at h; rw [hk] at h; cases h
+    have h2 : x.kind ≠ .spread := by intro hk; unfold isExpr at h; rw [hk] at h; cases h
+    split
+    · rename_i hk; exact absurd hk h1
+    · rename_i hk; exact absurd hk h2
+    · exact hr.expr c x hnm h hqx
+
+theorem specAllL_take_drop (cs : List ANode) (p : ANode → Bool) :
+    specAllL cs = (specAllL (cs.takeWhile p)).app (specAllL (cs.dropWhile p)) := by
+  rw [← specAllL_append, List.takeWhile_append_dropWhile]
+
+/-- The argument list of a call or set rule in code mode. -/
+theorem args_frag (e : Env) (r : Rec) (hr : RecOK r Q) (ctx : Ctx) (hctx : NM ctx) (args : ANode) (hk : args.kind = .args)
+    (hq : inFrag args = true) :
+    Post (convArgs e r ctx args) (fun d => Carries d (specAll args)) := by
+  cases args with
+  | leaf k t a => simp only [ANode.kind] at hk; subst hk; simp [inFrag, Kind.isInnerKind] at hq
+  | inner k cs a =>
+    simp only [ANode.kind] at hk; subst hk
+    simp only [inFrag, Bool.and_eq_true] at hq
+    have hch : listChildrenOK .args cs = true := by
+      have h1 := hq.1
+      simp [Kind.isFragFlow, Kind.isFragElem, Kind.isFragList, Kind.isFragWrap, Kind.isFragItem] at h1
+      exact h1
+    rw [specAll_inner .args cs a (by simp [isVerbatimNode, Kind.isExpr]) (by decide)]
+    obtain ⟨sp0, sp1, sp2, _, _, _⟩ := soft_paren e
+    -- the trailing content blocks
+    have hblocks : ∀ (blocks : List ANode), (∀ b ∈ blocks, b ∈ cs) → blocks.all isBlockShape = true →
+        Post (blocks.mapM (convContentBlock e r ctx)) (fun docs => Carries (concatDocs docs) (specAllL blocks)) := by
+      intro blocks hmem hall
+      refine Post.mono (Post.mapM blocks (R := fun b d => Carries d (specAll b)) (fun b hb => ?_)) (fun docs h => concatDocs_carries blocks docs h)
+      have hbq := inFragL_mem hq.2 (hmem b hb)
+      have hshape := List.all_eq_true.mp hall b hb
+      refine contentBlock_carries e r hr ctx hctx b hshape (inFrag_lex b hbq) (fun c hc => ?_)
+      cases b with
+      | leaf _ _ _ => simp [isBlockShape] at hshape
+      | inner kb cb ab =>
+        simp only [inFrag, Bool.and_eq_true] at hbq
+        exact inFragL_mem hbq.2 hc
+    unfold convArgs hasParenArgs
+    dsimp only
+    simp only [ANode.children]
+    by_cases hp : (cs.head?.map (·.kind == .leftParen)).getD false = true
+    · -- parenthesised arguments, then blocks
+      simp only [listChildrenOK, hp, ↓reduceIte, Bool.and_eq_true] at hch
+      obtain ⟨hpre, hpost⟩ := hch
+      simp only [hp, ↓reduceIte]
+      cases hdw : cs.dropWhile (·.kind != .rightParen) with
+      | nil => rw [hdw] at hpost; simp at hpost
+      | cons rp blocks =>
+        rw [hdw] at hpost
+        have hrpk : rp.kind = .rightParen := by
+          have := List.head_dropWhile_not (·.kind != .rightParen) (l := cs) (by rw [hdw]; simp)
+          simp only [hdw, List.head_cons] at this
+          simpa using this
+        have hrpm : rp ∈ cs := (List.dropWhile_sublist _).subset (by rw [hdw]; exact List.mem_cons_self)
+        have hblm : ∀ b ∈ blocks, b ∈ cs := fun b hb => (List.dropWhile_sublist _).subset (by rw [hdw]; exact List.mem_cons_of_mem _ hb)
+        have hpre_all : ∀ x ∈ cs.takeWhile (·.kind != .rightParen), inFrag x = true ∧ (isArg x = true ∨ isPassable x = true) := by
+          intro x hx
+          refine ⟨inFragL_mem hq.2 ((List.takeWhile_sublist _).subset hx), ?_⟩
+          have := List.all_eq_true.mp hpre x hx
+          simpa using this
+        rw [specAllL_take_drop cs (·.kind != .rightParen), hdw, specAllL_cons,
+          specAll_ignorable rp (inFrag_lex rp (inFragL_mem hq.2 hrpm)) (by unfold isIgnorable; rw [hrpk]; rfl), Streams.empty_app]
+        refine Post.bind (Q := fun p => Carries p (specAllL (cs.takeWhile (·.kind != .rightParen)))) ?_ (fun p hpc => ?_)
+        · unfold convParenArgs
+          simp only [ANode.children]
+          exact list_construct_carries e _ (argItem e r) _
+            (checker_ok (argItem e r) isArg
+              (fun c x hnm hqx hax => by
+                unfold argItem; simp only [hax, ↓reduceIte]
+                exact Post.bind (convArg_frag e r hr c hnm x hqx hax) (fun d hd => Post.pure ⟨d, rfl, hd⟩))
+              (fun c x hax => by unfold argItem; simp [hax]))
+            (NM.withMode _ (by decide)) _ ⟨rfl, rfl, rfl⟩ id (fun _ => rfl) _ sp2 sp0 sp1 _ hpre_all
+            (fun x hx => no_hash_of isArg (fun y hy hk => by
+              unfold isArg isExpr at hy; rw [hk] at hy; simp [Kind.isExpr] at hy) x (hpre_all x hx).2)
+        · unfold convAdditionalArgs
+          simp only [ANode.children, ↓reduceIte, hdw]
+          have hfilter : (rp :: blocks).filter (·.kind == .contentBlock) = blocks := by
+            rw [List.filter_cons]
+            have : (rp.kind == .contentBlock) = false := by rw [hrpk]; rfl
+            simp only [this, Bool.false_eq_true, ↓reduceIte]
+            apply List.filter_eq_self.mpr
+            intro b hb
+            exact blockShape_kind b (List.all_eq_true.mp hpost b hb)
+          rw [hfilter]
+          exact Post.bind (Post.bind (hblocks blocks hblm hpost) (fun docs hd => Post.pure hd)) (fun x hx => Post.pure (hpc.app hx))
+    · -- content blocks only
+      have hp' : (cs.head?.map (·.kind == .leftParen)).getD false = false := by simpa using hp
+      simp only [listChildrenOK, hp', Bool.false_eq_true, ↓reduceIte] at hch
+      simp only [hp', Bool.false_eq_true, ↓reduceIte, M.pure_bind]
+      unfold convAdditionalArgs
+      simp only [ANode.children, Bool.false_eq_true, ↓reduceIte]
+      have hallk : ∀ b ∈ cs, (b.kind == .contentBlock) = true := by
+        intro b hb
+        exact blockShape_kind b (List.all_eq_true.mp hch b hb)
+      have hdw : cs.dropWhile (fun c => c.kind != .contentBlock) = cs := by
+        cases cs with
+        | nil => rfl
+        | cons c rest =>
+          rw [List.dropWhile_cons]
+          have := hallk c List.mem_cons_self
+          simp [bne, this]
+      have hfl : cs.filter (·.kind == .contentBlock) = cs := List.filter_eq_self.mpr hallk
+      rw [hdw, hfl]
+      refine Post.bind (Q := fun x => Carries x (specAllL cs)) (Post.bind (hblocks cs (fun b hb => hb) hch) (fun docs hd => Post.pure hd)) (fun x hx => Post.pure ?_)
+      simpa using Carries.nil.app hx
 
 theorem specAll_underscore_leaf (t : String) (a : Attrs) : specAll (.leaf .underscore t a) = tagS .tok t := by
   apply Streams.ext' <;> simp [specAll, specToks, specCmts, specProse, specLit, specVerb, isCommentKind, tagS, Pretty.charsOf,
@@ -213,7 +345,7 @@ theorem leaf_expr_frag (e : Env) (r : Rec) (ctx : Ctx) (k : Kind) (t : String) (
     exact Post.pure (Carries.repeatN Carries.hardline _)
 
 /-- One level of the knot: the expression entry point. -/
-theorem convExpr_frag (e : Env) (r : Rec) (hr : RecOK r Q) (ctx : Ctx) (n : ANode) (hx : isExpr n = true) (hq : inFrag n = true) :
+theorem convExpr_frag (e : Env) (r : Rec) (hr : RecOK r Q) (ctx : Ctx) (hctx : NM ctx) (n : ANode) (hx : isExpr n = true) (hq : inFrag n = true) :
     Post (convExpr e r ctx n) (fun d => Carries d (specAll n)) := by
   unfold convExpr
   refine Post.bind (Q := fun _ => True) (fun _ _ _ _ => trivial) (fun _ _ => ?_)
@@ -263,7 +395,7 @@ theorem convExpr_frag (e : Env) (r : Rec) (hr : RecOK r Q) (ctx : Ctx) (n : ANod
           show Post (convStrongEmph e r ctx _ "*") _
           unfold convStrongEmph firstWhere
           simp only [ANode.children, hfind, childOr, M.pure_bind]
-          refine Post.bind (hr.markup ctx m .strong hmk hq0.2.1) (fun d hd => Post.pure ?_)
+          refine Post.bind (hr.markup ctx m .strong hctx hmk hq0.2.1) (fun d hd => Post.pure ?_)
           obtain ⟨t0, a0, h0⟩ := leaf_of_token hc0.1 (by rw [hch.1]; rfl)
           obtain ⟨t1, a1, h1⟩ := leaf_of_token hc0.2.2.1 (by rw [hch.2.2]; rfl)
           have ht0 : t0 = "*" := leaf_tok_fixed (by rw [← h0]; exact hc0.1) (by rw [hch.1]; rfl)
@@ -278,7 +410,7 @@ theorem convExpr_frag (e : Env) (r : Rec) (hr : RecOK r Q) (ctx : Ctx) (n : ANod
           show Post (convStrongEmph e r ctx _ "_") _
           unfold convStrongEmph firstWhere
           simp only [ANode.children, hfind, childOr, M.pure_bind]
-          refine Post.bind (hr.markup ctx m .strong hmk hq0.2.1) (fun d hd => Post.pure ?_)
+          refine Post.bind (hr.markup ctx m .strong hctx hmk hq0.2.1) (fun d hd => Post.pure ?_)
           obtain ⟨t0, a0, h0⟩ := leaf_of_token hc0.1 (by rw [hch.1]; rfl)
           obtain ⟨t1, a1, h1⟩ := leaf_of_token hc0.2.2.1 (by rw [hch.2.2]; rfl)
           have ht0 : t0 = "_" := leaf_tok_fixed (by rw [← h0]; exact hc0.1) (by rw [hch.1]; rfl)
@@ -293,7 +425,7 @@ theorem convExpr_frag (e : Env) (r : Rec) (hr : RecOK r Q) (ctx : Ctx) (n : ANod
           show Post (convContentBlock e r ctx _) _
           unfold convContentBlock
           simp only [ANode.children, hfind, childOr, M.pure_bind]
-          refine Post.bind (hr.markup ctx m .contentBlock hmk hq0.2.1) (fun d hd => Post.pure ?_)
+          refine Post.bind (hr.markup ctx m .contentBlock hctx hmk hq0.2.1) (fun d hd => Post.pure ?_)
           obtain ⟨t0, a0, h0⟩ := leaf_of_token hc0.1 (by rw [hch.1]; rfl)
           obtain ⟨t1, a1, h1⟩ := leaf_of_token hc0.2.2.1 (by rw [hch.2.2]; rfl)
           have ht0 : t0 = "[" := leaf_tok_fixed (by rw [← h0]; exact hc0.1) (by rw [hch.1]; rfl)
@@ -309,13 +441,13 @@ theorem convExpr_frag (e : Env) (r : Rec) (hr : RecOK r Q) (ctx : Ctx) (n : ANod
         have hraw : k ≠ .raw := by intro h; rw [h] at hitemk; cases hitemk
         cases k <;> simp only [Kind.isFragItem, Bool.false_eq_true] at hitemk
         · show Post (convHeading e r ctx _) _
-          exact flow_construct_carries e ctx _ cs a () _ (headingProducer_ok e r hr) hv hraw hlex hqc
+          exact flow_construct_carries e ctx _ cs a () _ (headingProducer_ok e r hr) hv hraw hlex hqc hctx
         all_goals
           (show Post (convListItemLike e r ctx _) _
            unfold convListItemLike
            refine Post.bind ?_ (fun d hd => Post.pure (Carries.nstTab hd))
            rw [specAll_inner _ cs a hv hraw, ← contribL_specAll cs hlex]
-           exact flowM_carries (commentOK e) (listItemProducer_ok e r hr) (fun c hok hk => specAll_space c hok.1.1 hk) cs
+           exact flowM_carries (commentOK e) (listItemProducer_ok e r hr) (fun c hok hk => specAll_space c hok.1.1 hk) hctx cs
              (fun c hc => ⟨⟨tokensAreLeavesL_mem hlex hc, hqc c hc⟩, fun hk he => by
                have hcq : inFrag c = true := hqc c hc
                cases c with
@@ -325,13 +457,72 @@ theorem convExpr_frag (e : Env) (r : Rec) (hr : RecOK r Q) (ctx : Ctx) (n : ANod
                  have : cs' = [] := by simpa [ANode.children] using he
                  subst this
                  rw [specAll_inner .markup [] a' (by simp [isVerbatimNode, Kind.isExpr]) (by decide)]; rfl⟩) false)
+      by_cases hcallk : k = .funcCall
+      · -- a call: callee, then the arguments
+        subst hcallk
+        have hch : listChildrenOK .funcCall cs = true := by
+          have h1 := hq.1
+          simp [Kind.isFragFlow, Kind.isFragElem, Kind.isFragList, Kind.isFragWrap, Kind.isFragItem] at h1
+          exact h1
+        simp only [listChildrenOK] at hch
+        rcases cs with _ | ⟨callee, _ | ⟨args, _ | ⟨c2, rest⟩⟩⟩ <;> simp only [Bool.false_eq_true] at hch
+        simp only [Bool.and_eq_true, Bool.not_eq_true', beq_iff_eq] at hch
+        obtain ⟨⟨⟨hcx, hcf⟩, hak⟩, htab⟩ := hch
+        have hqs := hq.2
+        simp only [inFragL, Bool.and_eq_true] at hqs
+        rw [specAll_inner .funcCall _ a (by simp [isVerbatimNode, hd']) (by decide)]
+        show Post (convFuncCall e r ctx _) _
+        unfold convFuncCall firstWhere lastWhere
+        have hf1 : ([callee, args] : List ANode).find? isExpr = some callee := by rw [List.find?_cons, hcx]
+        have hax : isExpr args = false := by unfold isExpr; rw [hak]; rfl
+        have hf2 : ([callee, args] : List ANode).reverse.find? (fun x => x.kind == .args) = some args := by
+          show ([args, callee] : List ANode).find? _ = _
+          rw [List.find?_cons]; simp [hak]
+        simp only [ANode.children, hf1, hf2, childOr, M.pure_bind, hcf, Bool.false_eq_true, ↓reduceIte]
+        refine Post.bind (hr.expr ctx callee hctx hcx hqs.1) (fun dc hdc => ?_)
+        have hm : (ctx.mode == LMode.math) = false := by unfold NM at hctx; simpa using hctx
+        have hnt : isTable (.inner .funcCall [callee, args] a) = false := by
+          unfold isTable identFuncName firstWhere
+          simp only [ANode.children, hf1]
+          by_cases hid : callee.kind = .ident
+          · simp only [hid, beq_self_eq_true, ↓reduceIte, Option.some.injEq, Bool.or_eq_false_iff, beq_eq_false_iff_ne]
+            have := htab
+            simp only [hid, beq_self_eq_true, Bool.true_and, Bool.or_eq_false_iff, beq_eq_false_iff_ne] at this
+            exact ⟨fun h => this.1 (Option.some.inj h), fun h => this.2 (Option.some.inj h)⟩
+          · have : (callee.kind == .ident) = false := by simpa using hid
+            simp [this]
+        have heqa : convFuncCallArgs e r ctx (.inner .funcCall [callee, args] a) args = convArgs e r ctx args := by
+          unfold convFuncCallArgs convArgs
+          simp only [hm, Bool.false_eq_true, ↓reduceIte, hnt]
+        have ha := args_frag e r hr ctx hctx args hak hqs.2.1
+        rw [← heqa] at ha
+        refine Post.bind ha (fun da hda => Post.pure ?_)
+        simpa [specAllL_cons] using hdc.app hda
+      by_cases hsetk : k = .setRule
+      · subst hsetk
+        show Post (convSetRule e r ctx _) _
+        have hv : isVerbatimNode .setRule cs a = false := by simp [isVerbatimNode, hd']
+        refine flow_construct_carries e ctx .setRule cs a () _ ?_ hv (by decide) hlex hqc hctx
+        intro st c child hnm hok
+        unfold setProducer
+        split
+        · rename_i hx'
+          exact Post.bind (hr.expr c child hnm hx' hok.2) (fun d hd => Post.pure hd)
+        · split
+          · rename_i hk
+            have hk' : child.kind = .args := by simpa using hk
+            exact Post.bind (args_frag e r hr c hnm child hk' hok.2) (fun d hd => Post.pure hd)
+          · split
+            · rename_i hk
+              exact Post.pure (specAll_space child hok.1 (by simpa using hk))
+            · exact Post.rejected _
       by_cases hflowk : k.isFragFlow = true
       · have hv : isVerbatimNode k cs a = false := by cases k <;> simp_all [Kind.isFragFlow, isVerbatimNode]
         have hraw : k ≠ .raw := by intro h; rw [h] at hflowk; cases hflowk
         have hflow : ∀ {σ : Type} (st : σ) (producer : σ → Ctx → ANode → M (σ × Option FlowItem)),
             ProducerS producer specAll (ChildOK Q) →
             Post (flowM e ctx cs st producer) (fun d => Carries d (specAll (.inner k cs a))) :=
-          fun st producer hp => flow_construct_carries e ctx k cs a st producer hp hv hraw hlex hqc
+          fun st producer hp => flow_construct_carries e ctx k cs a st producer hp hv hraw hlex hqc hctx
         clear hq
         cases k <;> simp only [Kind.isFragFlow, Bool.false_eq_true] at hflowk
         · show Post (convUnary e r ctx _) _
@@ -424,14 +615,14 @@ theorem convExpr_frag (e : Env) (r : Rec) (hr : RecOK r Q) (ctx : Ctx) (n : ANod
               exact ⟨inFragL_mem hq.2 hc, Or.inr (hnotcode x hc hk)⟩
           exact list_construct_carries e _ (codeBlockItem r) _
             (checker_ok (codeBlockItem r) isExpr
-              (fun c x hqx hax => by
+              (fun c x hnm hqx hax => by
                 unfold codeBlockItem; simp only [hax, ↓reduceIte]
-                exact Post.bind (hr.expr c x hax hqx) (fun d hd => Post.pure ⟨d, rfl, hd⟩))
+                exact Post.bind (hr.expr c x hnm hax hqx) (fun d hd => Post.pure ⟨d, rfl, hd⟩))
               (fun c x hax => by unfold codeBlockItem; simp [hax]))
-            _ ⟨rfl, rfl, rfl⟩ id (fun _ => rfl) _ Carries.nil sp3 sp4 (flattenCode cs) hnodes
+            (NM.withMode _ (by decide)) _ ⟨rfl, rfl, rfl⟩ id (fun _ => rfl) _ Carries.nil sp3 sp4 (flattenCode cs) hnodes
             (fun x hx => no_hash_of isExpr (fun y hy hk => by unfold isExpr at hy; rw [hk] at hy; cases hy) x (hnodes x hx).2)
         · -- parenthesised: the `paren` entry point of the same level
-          exact hr.paren ctx _ rfl hd' (by show inFrag _ = true; simp only [inFrag, Bool.and_eq_true]; exact hq)
+          exact hr.paren ctx _ hctx rfl hd' (by show inFrag _ = true; simp only [inFrag, Bool.and_eq_true]; exact hq)
         · -- array
           have hall : ∀ x ∈ cs, inFrag x = true ∧ ((x.kind == .spread || isExpr x) = true ∨ isPassable x = true) := by
             intro x hx
@@ -451,19 +642,19 @@ theorem convExpr_frag (e : Env) (r : Rec) (hr : RecOK r Q) (ctx : Ctx) (n : ANod
           simp only [ANode.children, hexpl, Bool.not_true, Bool.false_and, ↓reduceIte]
           exact list_construct_carries e _ (convArrayItem e r) _
             (checker_ok (convArrayItem e r) (fun x => x.kind == .spread || isExpr x)
-              (fun c x hqx hax => by
+              (fun c x hnm hqx hax => by
                 unfold convArrayItem
                 by_cases hs : (x.kind == .spread) = true
                 · simp only [hs, ↓reduceIte]
                   refine Post.bind ?_ (fun d hd => Post.pure ⟨d, rfl, hd⟩)
-                  exact elem_carries e r c x hqx (by rw [show x.kind = .spread by simpa using hs]; rfl) () _ (spreadProducer_ok e r hr)
+                  exact elem_carries e r c hnm x hqx (by rw [show x.kind = .spread by simpa using hs]; rfl) () _ (spreadProducer_ok e r hr)
                 · have hx' : isExpr x = true := by simpa [hs] using hax
                   simp only [hs, Bool.false_eq_true, ↓reduceIte, hx']
-                  exact Post.bind (hr.expr c x hx' hqx) (fun d hd => Post.pure ⟨d, rfl, hd⟩))
+                  exact Post.bind (hr.expr c x hnm hx' hqx) (fun d hd => Post.pure ⟨d, rfl, hd⟩))
               (fun c x hax => by
                 simp only [Bool.or_eq_false_iff] at hax
                 unfold convArrayItem; simp [hax.1, hax.2]))
-            _ ⟨rfl, rfl, rfl⟩ id (fun _ => rfl) _ sp2 sp0 sp1 cs hall
+            (NM.withMode _ (by decide)) _ ⟨rfl, rfl, rfl⟩ id (fun _ => rfl) _ sp2 sp0 sp1 cs hall
             (fun x hx => no_hash_of (fun x => x.kind == .spread || isExpr x) (fun y hy hk => by
               simp only [Bool.or_eq_true, beq_iff_eq] at hy
               rcases hy with h | h
@@ -491,28 +682,28 @@ theorem convExpr_frag (e : Env) (r : Rec) (hr : RecOK r Q) (ctx : Ctx) (n : ANod
             · exact sp0
           exact list_construct_carries e _ (convDictItem e r) _
             (checker_ok (convDictItem e r) (fun x => x.kind == .named || x.kind == .keyed || x.kind == .spread)
-              (fun c x hqx hax => by
+              (fun c x hnm hqx hax => by
                 unfold convDictItem
                 simp only [Bool.or_eq_true, beq_iff_eq] at hax
                 rcases hax with (h | h) | h
                 · rw [h]
                   refine Post.bind ?_ (fun d hd => Post.pure ⟨d, rfl, hd⟩)
-                  exact elem_carries e r c x hqx (by rw [h]; rfl) false _ (namedProducer_ok e r hr)
+                  exact elem_carries e r c hnm x hqx (by rw [h]; rfl) false _ (namedProducer_ok e r hr)
                 · rw [h]
                   refine Post.bind ?_ (fun d hd => Post.pure ⟨d, rfl, hd⟩)
-                  exact elem_carries e r c x hqx (by rw [h]; rfl) false _ (keyedProducer_ok e r hr)
+                  exact elem_carries e r c hnm x hqx (by rw [h]; rfl) false _ (keyedProducer_ok e r hr)
                 · rw [h]
                   refine Post.bind ?_ (fun d hd => Post.pure ⟨d, rfl, hd⟩)
-                  exact elem_carries e r c x hqx (by rw [h]; rfl) () _ (spreadProducer_ok e r hr))
+                  exact elem_carries e r c hnm x hqx (by rw [h]; rfl) () _ (spreadProducer_ok e r hr))
               (fun c x hax => by
                 simp only [Bool.or_eq_false_iff, beq_eq_false_iff_ne] at hax
                 unfold convDictItem
                 split <;> simp_all))
-            _ ⟨rfl, rfl, rfl⟩ id (fun _ => rfl) _ sp2 hd0 sp1 cs hall
+            (NM.withMode _ (by decide)) _ ⟨rfl, rfl, rfl⟩ id (fun _ => rfl) _ sp2 hd0 sp1 cs hall
             (fun x hx => no_hash_of (fun x => x.kind == .named || x.kind == .keyed || x.kind == .spread) (fun y hy hk => by rw [hk] at hy; simp at hy) x (hall x hx).2)
 
 /-- One level of the knot: `convert_parenthesized`. -/
-theorem convParenthesized_frag (e : Env) (r : Rec) (hr : RecOK r Q) (ctx : Ctx) (n : ANode) (hk : n.kind = .parenthesized)
+theorem convParenthesized_frag (e : Env) (r : Rec) (hr : RecOK r Q) (ctx : Ctx) (hctx : NM ctx) (n : ANode) (hk : n.kind = .parenthesized)
     (hdis : n.attrs.disabled = false) (hq : inFrag n = true) : Post (convParenthesized e r ctx n) (fun d => Carries d (specAll n)) := by
   cases n with
   | leaf k t a =>
@@ -561,16 +752,16 @@ theorem convParenthesized_frag (e : Env) (r : Rec) (hr : RecOK r Q) (ctx : Ctx) 
       rw [specAll_inner _ cs a (by simp [isVerbatimNode, hd']) (by decide)]
       exact list_construct_carries e _ (parenItem r) _
         (checker_ok (parenItem r) isPattern
-          (fun c x hqx hax => by
+          (fun c x hnm hqx hax => by
             unfold parenItem; simp only [hax, ↓reduceIte]
-            exact Post.bind (hr.pattern c x hax hqx) (fun d hd => Post.pure ⟨d, rfl, hd⟩))
+            exact Post.bind (hr.pattern c x hnm hax hqx) (fun d hd => Post.pure ⟨d, rfl, hd⟩))
           (fun c x hax => by unfold parenItem; simp [hax]))
-        _ ⟨rfl, rfl, rfl⟩ id (fun _ => rfl) _ Carries.nil sp0 sp1 cs hall
+        (NM.withMode _ (by decide)) _ ⟨rfl, rfl, rfl⟩ id (fun _ => rfl) _ Carries.nil sp0 sp1 cs hall
         (fun x hx => no_hash_of isPattern (fun y hy hk => by
           unfold isPattern isExpr at hy; rw [hk] at hy; simp [Kind.isExpr] at hy) x (hall x hx).2)
 
 /-- One level of the knot: the pattern entry point. -/
-theorem convPattern_frag (e : Env) (r : Rec) (hr : RecOK r Q) (ctx : Ctx) (n : ANode)
+theorem convPattern_frag (e : Env) (r : Rec) (hr : RecOK r Q) (ctx : Ctx) (hctx : NM ctx) (n : ANode)
     (hp : isPattern n = true) (hq : inFrag n = true) :
     Post (convPattern e r (convExpr e r) (convParenthesized e r) ctx n) (fun d => Carries d (specAll n)) := by
   by_cases hu : n.kind = .underscore
@@ -602,7 +793,7 @@ theorem convPattern_frag (e : Env) (r : Rec) (hr : RecOK r Q) (ctx : Ctx) (n : A
           simp [inFrag, Kind.isFragFlow, Kind.isFragElem, Kind.isFragList, Kind.isFragWrap, Kind.isFragItem] at hq
       · exact h
     have hk2 : n.kind ≠ .destructuring := by intro h; unfold isExpr at hx; rw [h] at hx; cases hx
-    have hexpr := convExpr_frag e r hr ctx n hx hq
+    have hexpr := convExpr_frag e r hr ctx hctx n hx hq
     unfold convPattern
     refine Post.bind (Q := fun _ => True) (fun _ _ _ _ => trivial) (fun _ _ => ?_)
     split
@@ -620,11 +811,11 @@ theorem convPattern_frag (e : Env) (r : Rec) (hr : RecOK r Q) (ctx : Ctx) (n : A
       · rename_i hk; exact absurd hk hu
       · rename_i hk; exact absurd hk hk2
       · rename_i hk
-        exact convParenthesized_frag e r hr ctx n hk (by simpa using hd) hq
+        exact convParenthesized_frag e r hr ctx hctx n hk (by simpa using hd) hq
       · exact hexpr
 
 /-- One level of the knot: `convert_markup_impl`. -/
-theorem convMarkup_frag (e : Env) (r : Rec) (hr : RecOK r Q) (ctx : Ctx) (n : ANode) (scope : Scope) (hk : n.kind = .markup)
+theorem convMarkup_frag (e : Env) (r : Rec) (hr : RecOK r Q) (ctx : Ctx) (hctx : NM ctx) (n : ANode) (scope : Scope) (hk : n.kind = .markup)
     (hq : inFrag n = true) : Post (convMarkup e r ctx n scope) (fun d => Carries d (specAll n)) := by
   cases n with
   | leaf k t a =>
@@ -655,13 +846,13 @@ theorem convMarkup_frag (e : Env) (r : Rec) (hr : RecOK r Q) (ctx : Ctx) (n : AN
 /-- **The knot, by induction on the fuel**: at every level, the expression, pattern and parenthesis
 entry points carry what a tree of the fragment prescribes. -/
 theorem knot_frag (e : Env) : ∀ fuel, RecOK (knot e fuel) Q
-  | 0 => ⟨fun _ _ _ _ => Post.rejected _, fun _ _ _ _ => Post.rejected _, fun _ _ _ _ _ => Post.rejected _,
-          fun _ _ _ _ _ => Post.rejected _⟩
+  | 0 => ⟨fun _ _ _ _ _ => Post.rejected _, fun _ _ _ _ _ => Post.rejected _, fun _ _ _ _ _ _ => Post.rejected _,
+          fun _ _ _ _ _ _ => Post.rejected _⟩
   | fuel+1 => by
     have ih := knot_frag e fuel
-    exact ⟨fun ctx c hx hq => convExpr_frag e (knot e fuel) ih ctx c hx hq,
-           fun ctx c hp hq => convPattern_frag e (knot e fuel) ih ctx c hp hq,
-           fun ctx c hk hd hq => convParenthesized_frag e (knot e fuel) ih ctx c hk hd hq,
-           fun ctx c scope hk hq => convMarkup_frag e (knot e fuel) ih ctx c scope hk hq⟩
+    exact ⟨fun ctx c hn hx hq => convExpr_frag e (knot e fuel) ih ctx hn c hx hq,
+           fun ctx c hn hp hq => convPattern_frag e (knot e fuel) ih ctx hn c hp hq,
+           fun ctx c hn hk hd hq => convParenthesized_frag e (knot e fuel) ih ctx hn c hk hd hq,
+           fun ctx c scope hn hk hq => convMarkup_frag e (knot e fuel) ih ctx hn c scope hk hq⟩
 
 end Typstyle
